@@ -1,3 +1,7 @@
+from flexstack.geonet.gbc_extended_header import GBCExtendedHeader
+from flexstack.geonet.guc_extended_header import GUCExtendedHeader
+from flexstack.geonet.common_header import CommonHeader
+
 """Spec functions for the GeoNetworking headers (pure Python: executed symbolically by pyvc and natively at replay).
 Written from the property statements and the wire-format tables in DESIGN.md Appendix A, not from the code."""
 
@@ -254,3 +258,24 @@ def exists_code(ms):
     """ms is multiplier x base for some 6-bit multiplier"""
     return ((ms % 50 == 0 and ms // 50 <= 63) or (ms % 1000 == 0 and ms // 1000 <= 63)
             or (ms % 10000 == 0 and ms // 10000 <= 63) or (ms % 100000 == 0 and ms // 100000 <= 63))
+
+
+def hop_limit_for(request, mib):
+    """multi-hop source operations: the requested limit when above 1, else the MIB default"""
+    return request.max_hop_limit if request.max_hop_limit > 1 else mib.itsGnDefaultHopLimit
+
+
+def gbc_ext_bytes(sn, so_pv, area):
+    """sn:16 reserved:16 SO PV(24) area(16) - the image of the header with exactly these field values"""
+    return gbc_int(GBCExtendedHeader(sn=sn, reserved=0, so_pv=so_pv, latitude=area.latitude, longitude=area.longitude,
+                                     a=area.a, b=area.b, angle=area.angle, reserved2=0)).to_bytes(44, "big")
+
+
+def guc_ext_bytes(sn, so_pv, de_pv):
+    return guc_int(GUCExtendedHeader(sn=sn, reserved=0, so_pv=so_pv, de_pv=de_pv)).to_bytes(48, "big")
+
+
+def common_bytes(nh, ht, hst, tc, mobile, pl, mhl):
+    """the 8 octets of the Common Header with these field values (reserved zero, mobility flag = MSB of flags)"""
+    return common_header_int(CommonHeader(nh=nh, reserved=0, ht=ht, hst=hst, tc=tc, flags=mobile * 128, pl=pl,
+                                          mhl=mhl)).to_bytes(8, "big")
